@@ -60,23 +60,39 @@ Definition create_streams (init secret : bytes) : res oerr keys :=
   else Ok {| ek := derive secret (firstn 32 (skipn 8 init)); eiv := firstn 16 (skipn 40 init);
              dk := derive secret (firstn 32 (rev48 init)); div := firstn 16 (skipn 32 (rev48 init)) |}.
 
-(* generateKeys + Handshake: (header written to the connection, keys, unread randomness).
-   Afterwards the client's encrypt stream stands at position 64, its decrypt stream at 0. *)
+(* a cipher.Stream (createCTR key iv): key, iv and the number of keystream bytes consumed *)
+Record cstream := { s_key : bytes; s_iv : bytes; s_pos : Z }.
+Definition new_ctr (key iv : bytes) : cstream := {| s_key := key; s_iv := iv; s_pos := 0 |}.
+(* XORKeyStream(dst, src): output and the advanced stream *)
+Definition xor_stream (st : cstream) (data : bytes) : bytes * cstream :=
+  (xor_from (s_key st) (s_iv st) (s_pos st) data,
+   {| s_key := s_key st; s_iv := s_iv st; s_pos := s_pos st + zlen data |}).
+(* Obfuscated2.keys: the encrypt and the decrypt stream of one side *)
+Record endpoint := { enc : cstream; dec : cstream }.
+
+(* generateKeys + Handshake: (header written to the connection, the client's two streams AS THEY
+   STAND after the handshake, unread randomness).  k.encrypt.XORKeyStream(encryptedInit, init)
+   runs all 64 bytes of init through the encrypt stream. *)
 Definition client_handshake (fuel : nat) (rnd protocol : bytes) (dc : Z) (secret : bytes)
-  : res oerr (bytes * keys * bytes) :=
+  : res oerr (bytes * endpoint * bytes) :=
   do (init, rest) <- gen_init fuel rnd;
   do k <- create_streams init secret;
   let init' := firstn 56 init ++ protocol ++ le_enc 2 dc ++ skipn 62 init in   (* uint16(dc) *)
-  let enc := xor_from (ek k) (eiv k) 0 init' in
-  Ok (firstn 56 init ++ firstn 8 (skipn 56 enc), k, rest).
+  let '(encd, e1) := xor_stream (new_ctr (ek k) (eiv k)) init' in
+  Ok (firstn 56 init ++ firstn 8 (skipn 56 encd),
+      {| enc := e1; dec := new_ctr (dk k) (div k) |}, rest).
 
-(* Accept: ((protocol, dc), keys as the CLIENT names them, rest of the stream).  The server
-   decrypts with (ek, eiv) -- positioned at 64 afterwards -- and encrypts with (dk, div) from 0. *)
-Definition server_accept (s secret : bytes) : res oerr ((bytes * Z) * keys * bytes) :=
+(* Accept: ((protocol, dc), the server's two streams after Accept, rest of the stream).
+   createStreams on the received header, "k.encrypt, k.decrypt = k.decrypt, k.encrypt", then
+   k.decrypt.XORKeyStream(decrypted, buf) runs the 64 header bytes through the decrypt stream. *)
+Definition server_accept (s secret : bytes) : res oerr ((bytes * Z) * endpoint * bytes) :=
   do (hdr, rest) <- read_full 64 s;
   do k <- create_streams hdr secret;
-  let dec := xor_from (ek k) (eiv k) 0 hdr in
-  Ok ((firstn 4 (skipn 56 dec), le_dec (firstn 2 (skipn 60 dec))), k, rest).
+  let srv_decrypt := new_ctr (ek k) (eiv k) in       (* after the swap *)
+  let srv_encrypt := new_ctr (dk k) (div k) in
+  let '(decd, d1) := xor_stream srv_decrypt hdr in
+  Ok ((firstn 4 (skipn 56 decd), le_dec (firstn 2 (skipn 60 decd))),
+      {| enc := srv_encrypt; dec := d1 |}, rest).
 
 (* Write calls: every call encrypts its argument and advances the stream *)
 Fixpoint send_all (key iv : bytes) (pos : Z) (ws : list bytes) : bytes :=
@@ -93,6 +109,11 @@ Fixpoint recv_all (key iv : bytes) (pos : Z) (chunks : list (bytes * bool)) : by
   | (c, err) :: t =>
     xor_from key iv pos c ++ (if err then [] else recv_all key iv (pos + zlen c) t)
   end.
+
+(* Obfuscated2.Write / Read on a stream state: all Write calls complete (a conn.Write that fails
+   or writes fewer bytes ends the session: the key stream has advanced by len(b) regardless) *)
+Definition send_on (st : cstream) (ws : list bytes) : bytes := send_all (s_key st) (s_iv st) (s_pos st) ws.
+Definition recv_on (st : cstream) (chunks : list (bytes * bool)) : bytes := recv_all (s_key st) (s_iv st) (s_pos st) chunks.
 
 End Obfs.
 
